@@ -160,7 +160,9 @@ func (s *SelectStatement) ToStreamConfig() (*types.Config, string, error) {
 					if err != nil {
 						return nil, "", err
 					}
-					if n != "" {
+					// For a function call n is its first argument, not an output
+					// name: upper(s) stays the column "upper(s)", it is not column s
+					if n != "" && extractFunctionName(fieldName) == "" {
 						// If string literal, use parsed field name (remove quotes)
 						simpleFields = append(simpleFields, n)
 					} else {
